@@ -2,6 +2,7 @@
 import json
 import os
 import random
+import zlib
 import sys
 
 sys.path.insert(0, '/verif/gen')
@@ -25,7 +26,7 @@ def generated_sources(seed, n, kinds=('core',)):
     out = []
     for i in range(n):
         kind = kinds[i % len(kinds)]
-        rng = random.Random((seed << 24) ^ (i * 7919) ^ hash(kind) % 65536)
+        rng = random.Random((seed << 24) ^ (i * 7919) ^ zlib.crc32(kind.encode()) % 65536)
         text = None
         try:
             if kind == 'core':
